@@ -12,7 +12,11 @@ log = logging.getLogger('supp.assistant')
 
 
 def list_packages(project, root, filename):
-    root = project.norm_package(root, filename)
+    try:
+        root = project.norm_package(root, filename)
+    except ImportError:
+        # relative import in a file outside a package
+        return []
     return sorted(r for r in project.list_packages(root))
 
 
@@ -47,7 +51,10 @@ def assist(project, source, position, filename=None, debug=False):
             return prefix, list_packages(project, head, filename)
         else:
             plist = list_packages(project, head, filename)
-            module = project.get_nmodule(head, filename)
+            try:
+                module = project.get_nmodule(head, filename)
+            except ImportError:
+                return prefix, plist
             return prefix, sorted(set(plist) | set(module.attr_list(ctx)))
 
     scope = extract_scope(source, project)
@@ -70,6 +77,21 @@ def _loc(location, filename):
     return {'loc': location, 'file': filename}
 
 
+def _marked_import_target(project, ctx, marked_import, filename):
+    head, tail = marked_import
+    if tail is None:
+        return project.get_nmodule(head, filename)
+
+    if not tail:
+        full = head
+        head, tail = split_pkg(head)
+    else:
+        full = join_pkg(head, tail)
+
+    module = project.get_nmodule(head, filename)
+    return module.get_attr(ctx, tail) or project.get_nmodule(full, filename)
+
+
 def location(project, source, position, filename=None, debug=False):
     source = Source(source, filename, position)
 
@@ -81,22 +103,13 @@ def location(project, source, position, filename=None, debug=False):
     ctx = EvalCtx(project)
 
     if marked_import:
-        head, tail = marked_import
-        if tail is None:
-            name = project.get_nmodule(head, filename)
+        try:
+            name = _marked_import_target(project, ctx, marked_import, filename)
+        except ImportError:
+            # unknown or half-typed module name
+            result = []
         else:
-            if not tail:
-                full = head
-                head, tail = split_pkg(head)
-            else:
-                full = join_pkg(head, tail)
-
-            module = project.get_nmodule(head, filename)
-            name = module.get_attr(ctx, tail)
-            if not name:
-                name = project.get_nmodule(full, filename)
-
-        result = ctx.declarations(name, [])
+            result = ctx.declarations(name, [])
     else:
         node = get_marked_name(source.tree) or get_marked_atribute(source.tree)
         if node:
